@@ -184,6 +184,17 @@ def key_function_rule(rep, prog, cfg, type_name, as_str_name, trait, method, cmp
                 leaves, _ = fl.sources([0], through_call=thr)
                 if ("call", bb) not in leaves:
                     problems.append("the result does not derive from the comparison of the names")
+    if allow_delegate is not None:
+        # `Some(self.cmp(other))`: same direction as the total order it delegates to
+        dcalls = [(bb, t) for bb, t in b.calls() if allow_delegate in callee_names(t)]
+        flipped = any(any(n.endswith("Ordering::reverse") for n in callee_names(t2)) for _, t2 in b.calls())
+        for bb, t in dcalls:
+            for ai in range(min(2, len(t["args"]))):
+                psrc = {x[1] for x in fl.sources([op_local(t["args"][ai])], through_call=identity_through)[0] if x[0] == "param"}
+                want = {ai + 1} if not flipped else {2 - ai}
+                if psrc != want:
+                    problems.append("operand %d of the delegated %s comes from parameter %s, expected %s: partial_cmp is the reverse of cmp"
+                                    % (ai, allow_delegate.rsplit("::", 1)[-1], sorted(psrc), sorted(want)))
     rep.check(not problems, rule, inst, where,
               "%s::%s for %s does not factor through the protocol name: %s" % (trait, method, type_name, "; ".join(sorted(set(problems)))),
               detail={"as_str_calls": n_as_str})
